@@ -23,12 +23,14 @@ type engine struct{}
 func init() { harness.Register(engine{}) }
 
 func (engine) Name() string    { return "storesim" }
-func (engine) Props() []string { return []string{"C01"} }
+func (engine) Props() []string { return []string{"C01", "C12"} }
 
 func (e engine) Gen(prop, tier string, run int, r *simcore.Rand) *harness.Plan {
 	switch prop {
 	case "C01":
 		return genC01(tier, run, r)
+	case "C12":
+		return genC12(tier, run, r)
 	}
 	return nil
 }
@@ -111,6 +113,17 @@ func (e engine) Exec(rc *harness.RunCtx, p *harness.Plan) *harness.Outcome {
 	var cfg Config
 	if err := json.Unmarshal(p.Config, &cfg); err != nil {
 		return &harness.Outcome{Inconclusive: "bad config: " + err.Error()}
+	}
+	if p.Mode == "quorum" {
+		ops := make([]c12Op, len(p.Ops))
+		for i, raw := range p.Ops {
+			if err := json.Unmarshal(raw, &ops[i]); err != nil {
+				return &harness.Outcome{Inconclusive: "bad op: " + err.Error()}
+			}
+		}
+		o := &harness.Outcome{}
+		_ = o
+		return execC12(rc, p, &cfg, ops)
 	}
 	ops := make([]sim.Op, len(p.Ops))
 	for i, raw := range p.Ops {
